@@ -40,11 +40,12 @@ const (
 	mEmptyOID
 	mWrapTrail
 	mEmptyValid
+	mSCTList
 	mOpCount
 )
 
 var mutNames = []string{"retag", "len-delta", "len-nonminimal", "len-indefinite", "swap", "dup", "delete", "content", "int-nonminimal", "empty",
-	"latin", "bad-bool", "bit-pad", "odd-time", "flip", "truncate", "insert", "high-tag", "arc80", "append-byte", "oid-replace", "int-set", "empty-oid", "wrap-trail", "empty-valid"}
+	"latin", "bad-bool", "bit-pad", "odd-time", "flip", "truncate", "insert", "high-tag", "arc80", "append-byte", "oid-replace", "int-set", "empty-oid", "wrap-trail", "empty-valid", "sct-list"}
 
 // framingOps change the outer framing of the input (they are left out where an input must stay one TLV).
 var framingOps = map[int]bool{mTruncate: true, mAppendByte: true}
@@ -486,6 +487,24 @@ func applyMuts(d []byte, muts []Mut) ([]byte, []string) {
 			default:
 				mt.setContent(n, []byte{})
 			}
+		case mSCTList:
+			// an edit inside the TLS encoding (RFC 6962 s3.3) of an embedded SCT list; both OCTET STRING
+			// wrappers and every enclosing length stay consistent
+			var lists []*derx.Node
+			for _, x := range nodes {
+				if x.Constructed() && len(x.Children) >= 2 && len(x.Children[0].ID) == 1 && x.Children[0].ID[0] == derx.TagOID && string(mt.contentOf(x.Children[0])) == string(sctOIDDER[2:]) {
+					v := x.Children[len(x.Children)-1]
+					if len(v.ID) == 1 && v.ID[0] == derx.TagOctetString && len(v.Children) == 1 && v.Children[0].ID[0] == derx.TagOctetString {
+						lists = append(lists, v.Children[0])
+					}
+				}
+			}
+			if len(lists) == 0 {
+				done = false
+				break
+			}
+			n := lists[mix(m.Node)%len(lists)]
+			mt.setContent(n, sctEdit(mt.contentOf(n), m.A))
 		case mWrapTrail:
 			// trailing element inside an OCTET STRING / BIT STRING that wraps DER (extension values, RSA keys),
 			// or - when the input has none - at the end of any constructed node
@@ -530,4 +549,61 @@ func (mt *mtree) rewrap(orig, clone *derx.Node) {
 			mt.rewrap(orig.Children[i], clone.Children[i])
 		}
 	}
+}
+
+// sctEdit applies one TLS-level edit to a SignedCertificateTimestampList: the 2-byte list length or the
+// 2-byte length of the first / last SerializedSCT moved by +-1, +-2 or to an extreme, zero-length SCTs,
+// trailing bytes inside or after the list, a dropped tail, a duplicated entry.
+func sctEdit(l []byte, a int) []byte {
+	out := append([]byte(nil), l...)
+	if len(out) < 4 {
+		return [][]byte{{}, {0}, {0, 0}, {0, 1}, {0, 2, 0, 0}, {0, 3, 0, 1}, {0xff, 0xff}}[a%7]
+	}
+	// offsets of the SerializedSCT length prefixes, as far as the list is consistent
+	var offs []int
+	for o := 2; o+2 <= len(out); {
+		offs = append(offs, o)
+		o += 2 + (int(out[o])<<8 | int(out[o+1]))
+	}
+	put := func(o, v int) {
+		if v < 0 {
+			v = 0
+		}
+		out[o], out[o+1] = byte(v>>8), byte(v)
+	}
+	get := func(o int) int { return int(out[o])<<8 | int(out[o+1]) }
+	deltas := []int{1, 2, -1, -2, 3, -3}
+	last := offs[len(offs)-1]
+	switch k := a % 16; k {
+	case 0, 1, 2: // list length
+		put(0, get(0)+deltas[(a/16)%6])
+	case 3, 4, 5, 6: // last SCT length
+		put(last, get(last)+deltas[(a/16)%6])
+	case 7: // first SCT length
+		put(offs[0], get(offs[0])+deltas[(a/16)%6])
+	case 8: // a zero-length SCT appended (list length adjusted)
+		out = append(out, 0, 0)
+		put(0, get(0)+2)
+	case 9: // last SCT declared empty
+		put(last, 0)
+	case 10: // trailing bytes after the list
+		out = append(out, make([]byte, 1+(a/16)%2)...)
+	case 11: // trailing bytes inside the list
+		n := 1 + (a/16)%2
+		out = append(out, make([]byte, n)...)
+		put(0, get(0)+n)
+	case 12: // tail dropped, lengths kept
+		out = out[:len(out)-1-(a/16)%2]
+	case 13: // tail dropped, list length adjusted
+		n := 1 + (a/16)%2
+		out = out[:len(out)-n]
+		put(0, get(0)-n)
+	case 14: // extremes
+		put([]int{0, last}[(a/16)%2], []int{0, 0xffff, 1}[(a/32)%3])
+	default: // last entry duplicated
+		e := append([]byte(nil), out[last:]...)
+		out = append(out, e...)
+		put(0, get(0)+len(e))
+	}
+	return out
 }
